@@ -153,4 +153,11 @@ example : ListDS.lrangeL [[1], [2], [3]] false (-9223372036854775808) 9223372036
 example : (NutsGen.K.tx_LRem.run (-9223372036854775808) 2 false false 0).events = [] := by decide
 example : (NutsGen.K.zset_sanitizeIndexes.run (-9223372036854775808) 0 3 3).vals = [1, 1] := by decide
 
+/-- `List.LRem` never panics: for every count (every machine integer, `MinInt64` included) and every list
+shorter than 2^62 the copy loop stays inside its slice — from `LRem.lremL_spec`, which says what it returns -/
+theorem C20_lrem_no_panic (l : List Bytes) (count : Int) (v : Bytes) (hn : (l.length : Int) < 4611686018427387904) :
+    ListDS.lremL l count v ≠ .panic := by
+  rw [LRem.lremL_spec l count v hn]
+  split <;> simp
+
 end NutsProofs.C20
